@@ -220,6 +220,19 @@ def code_shapes():
     out["modes_checksum"] = crc_fn_shape()
     return out
 
+def cfg_items():
+    """every cfg / cfg_attr item of the two library crates with the line that follows it"""
+    out = []
+    for path in ["libadsb_deku/src/lib.rs", "libadsb_deku/src/adsb.rs", "libadsb_deku/src/bds.rs", "libadsb_deku/src/cpr.rs",
+                 "libadsb_deku/src/crc.rs", "libadsb_deku/src/mode_ac.rs", "rsadsb_common/src/lib.rs"]:
+        lines = strip_comments(read(path)).split("\n")
+        for i, l in enumerate(lines):
+            t = l.strip()
+            if t.startswith("#[cfg(") or t.startswith("#![cfg") or (t.startswith("#[cfg_attr(") and "serde" not in t and "docsrs" not in t):
+                nxt = next((x.strip() for x in lines[i + 1:] if x.strip()), "")
+                out.append("%s: %s => %s" % (path.split("/")[0] + "/" + path.split("/")[-1], t, nxt[:60]))
+    return "\n".join(out) + "\n"
+
 def main():
     os.makedirs(OUT, exist_ok=True)
     crc = crc_table(); chars = char_lookup(); tree = nl_tree(); c = constants()
@@ -259,6 +272,7 @@ end Adsb.Gen
     lay = layout()
     shapes = code_shapes()
     open(os.path.join(OUT, "layout.txt"), "w").write(lay)
+    open(os.path.join(OUT, "cfg_items.txt"), "w").write(cfg_items())
     open(os.path.join(OUT, "shapes.json"), "w").write(json.dumps(shapes, indent=1, sort_keys=True))
     print(json.dumps({"tables_sha": hashlib.sha256(lean.encode()).hexdigest()[:16],
                       "layout_sha": hashlib.sha256(lay.encode()).hexdigest()[:16],
